@@ -1332,7 +1332,8 @@ func (t *Tokenizer) readPunctuation() (models.Token, error) {
 				commentStartIdx := t.pos.Index - size // back to '/'
 				commentStartPos := t.toSQLPosition(Position{Index: commentStartIdx})
 				t.pos.AdvanceRune(nxtR, nxtSize)
-				// Skip until */ or EOF
+				// Skip until */
+				closed := false
 				for t.pos.Index < len(t.input) {
 					cr, csize := utf8.DecodeRune(t.input[t.pos.Index:])
 					if cr == '*' {
@@ -1341,12 +1342,22 @@ func (t *Tokenizer) readPunctuation() (models.Token, error) {
 							nr, ns := utf8.DecodeRune(t.input[t.pos.Index:])
 							if nr == '/' {
 								t.pos.AdvanceRune(nr, ns) // End of block comment
+								closed = true
 								break
 							}
 						}
 					} else {
 						t.pos.AdvanceRune(cr, csize)
 					}
+				}
+				if !closed {
+					// Swallowing the rest of the input silently would hide everything
+					// after a forgotten "*/".
+					return models.Token{}, errors.NewError(
+						errors.ErrCodeUnterminatedString,
+						"unterminated block comment",
+						commentStartPos,
+					).WithContext(string(t.input), 2).WithHint("Close the comment with */")
 				}
 				t.Comments = append(t.Comments, models.Comment{
 					Text:   string(t.input[commentStartIdx:t.pos.Index]),
